@@ -127,6 +127,14 @@ func init() {
 		}
 		zc("gen_c12_strict_cap_ns", c12Eval(adds[0].Args[0]))
 		sc("gen_c12_strict_novalidity_op", c12Op(strict.Body, "validUntil", "PublicKeyNotValid"))
+		// does the rule compare time.Time values obtained through Timestamp.Time() (int64), or the
+		// uint64 millisecond values themselves (finding F62)?
+		fmt.Fprintf(&b, "Definition gen_c12_strict_unsigned : bool := %v.\n", len(c12Calls(strict.Body, "Time")) == 0)
+
+		// ListKeyIDs: is the whole signatures object decoded, or only the named entity's entry?
+		lk := need(root.funcDecl("ListKeyIDs"), "ListKeyIDs")
+		fmt.Fprintf(&b, "Definition gen_c12_signatures_per_entry : bool := %v.\n",
+			!strings.Contains(strings.Join(strings.Fields(c12Str(lk.Body)), ""), "map[string]map[KeyID]json.RawMessage"))
 
 		// magic values
 		for _, n := range []string{"PublicKeyNotExpired", "PublicKeyNotValid"} {
